@@ -287,6 +287,7 @@ type Ctx struct {
 	after    []func()
 	timer    *Timer
 	deadline time.Time
+	cause    error
 }
 
 // NewCtx creates a cancellable controlled context.
@@ -389,6 +390,30 @@ func (c *Ctx) Cancel() {
 	o := &op{kind: opYield, what: c.name + ".cancel"}
 	E.yield(o)
 	c.CancelNow()
+}
+
+// CancelCause cancels with a cause (context.WithCancelCause): Err() stays context.Canceled, Cause() reports the cause.
+func (c *Ctx) CancelCause(cause error) {
+	o := &op{kind: opYield, what: c.name + ".cancel"}
+	E.yield(o)
+	if c.err == nil {
+		c.cause = cause
+	}
+	c.CancelNow()
+}
+
+// Cause is context.Cause for controlled contexts.
+func (c *Ctx) Cause() error {
+	if c.err == nil {
+		return nil
+	}
+	if c.cause != nil {
+		return c.cause
+	}
+	if p, ok := c.parent.(*Ctx); ok && p.err != nil {
+		return p.Cause()
+	}
+	return c.err
 }
 
 // CancelNow cancels without a separate scheduling point before it (used by writers/readers that
